@@ -30,6 +30,24 @@ def leavesList : List (Node κ) → List (κ × Str)
   | n :: ns => n.leaves ++ leavesList ns
 end
 
+mutual
+/-- `NodeOrToken::last_token()` (rowan 0.16.1 cursor.rs:1180-1185): a token is its own last token,
+    a node's is `SyntaxNode::last_token()` of its children -/
+def lastTokN : Node κ → Option (κ × Str)
+  | .tok k t => some (k, t)
+  | .node _ cs => lastTok cs
+/-- `SyntaxNode::last_token()` on a child list (rowan 0.16.1 cursor.rs:832-834):
+    `self.last_child_or_token()?.last_token()` — the LAST child, and if that is a node ITS last
+    token, recursively; `none` when this chain of last children ends in a node without children
+    (it does not fall back to an earlier sibling). -/
+def lastTok : List (Node κ) → Option (κ × Str)
+  | [] => none
+  | n :: ns =>
+    match ns with
+    | [] => lastTokN n
+    | _ :: _ => lastTok ns
+end
+
 def kind : Node κ → κ
   | .tok k _ => k
   | .node k _ => k
@@ -71,6 +89,101 @@ def tokText (ts : List (κ × Str)) : Str := (ts.map (·.2)).flatten
   simp [tokText]
 @[simp] theorem tokText_append (a b : List (κ × Str)) : tokText (a ++ b) = tokText a ++ tokText b := by
   simp [tokText]
+
+theorem lastTok_nil : lastTok ([] : List (Node κ)) = none := by simp [lastTok]
+theorem lastTok_single (n : Node κ) : lastTok [n] = lastTokN n := by simp [lastTok]
+theorem lastTok_cons_cons (c d : Node κ) (cs) : lastTok (c :: d :: cs) = lastTok (d :: cs) := by
+  rw [lastTok]
+theorem lastTokN_tok (k : κ) (t : Str) : lastTokN (Node.tok k t) = some (k, t) := by simp [lastTokN]
+theorem lastTokN_node (k : κ) (cs) : lastTokN (Node.node k cs) = lastTok cs := by simp [lastTokN]
+
+/-- only the last child matters -/
+theorem lastTok_append (X Y : List (Node κ)) (h : Y ≠ []) : lastTok (X ++ Y) = lastTok Y := by
+  induction X with
+  | nil => rfl
+  | cons x X ih =>
+    cases hXY : X ++ Y with
+    | nil => simp at hXY; exact absurd hXY.2 h
+    | cons z Z =>
+      rw [List.cons_append, hXY, lastTok_cons_cons, ← hXY]; exact ih
+
+theorem lastTok_snoc_tok (X : List (Node κ)) (k : κ) (t : Str) : lastTok (X ++ [.tok k t]) = some (k, t) := by
+  rw [lastTok_append _ _ (by simp), lastTok_single, lastTokN_tok]
+
+theorem lastTok_snoc_node (X : List (Node κ)) (k : κ) (cs : List (Node κ)) :
+    lastTok (X ++ [.node k cs]) = lastTok cs := by
+  rw [lastTok_append _ _ (by simp), lastTok_single, lastTokN_node]
+
+mutual
+/-- the last token, when there is one, is the last leaf -/
+theorem lastTokN_leaves : ∀ (n : Node κ) (t : κ × Str), lastTokN n = some t → n.leaves.getLast? = some t
+  | .tok k t', t, h => by simp [lastTokN] at h; subst h; simp
+  | .node k cs, t, h => by
+    rw [lastTokN_node] at h
+    simpa using lastTok_leaves cs t h
+theorem lastTok_leaves : ∀ (cs : List (Node κ)) (t : κ × Str), lastTok cs = some t →
+    (leavesList cs).getLast? = some t
+  | [], t, h => by simp [lastTok] at h
+  | [n], t, h => by
+    rw [lastTok_single] at h
+    simpa using lastTokN_leaves n t h
+  | c :: d :: cs, t, h => by
+    rw [lastTok_cons_cons] at h
+    have := lastTok_leaves (d :: cs) t h
+    rw [leavesList_cons, List.getLast?_append, this]; rfl
+end
+
+/-! `last_token()` against "the last leaf": they agree when no node of the tree is empty (every
+    parsed well-formed document, every built one); an empty node at the end of the chain of last
+    children — the parser's empty ERROR node behind a key at the end of the input — makes
+    `last_token()` `None` although the tree has tokens. -/
+
+mutual
+def noEmptyN : Node κ → Bool
+  | .tok _ _ => true
+  | .node _ cs => !cs.isEmpty && noEmptyL cs
+def noEmptyL : List (Node κ) → Bool
+  | [] => true
+  | n :: ns => noEmptyN n && noEmptyL ns
+end
+
+mutual
+theorem leaves_ne_of_noEmptyN : ∀ n : Node κ, noEmptyN n = true → n.leaves ≠ []
+  | .tok k t, _ => by simp
+  | .node k cs, h => by
+    simp only [noEmptyN, Bool.and_eq_true, Bool.not_eq_eq_eq_not, Bool.not_true] at h
+    rw [leaves_node]
+    exact leavesList_ne_of_noEmptyL cs h.2 (by intro e; simp [e] at h)
+theorem leavesList_ne_of_noEmptyL : ∀ cs : List (Node κ), noEmptyL cs = true → cs ≠ [] → leavesList cs ≠ []
+  | [], _, h => absurd rfl h
+  | n :: ns, h, _ => by
+    simp only [noEmptyL, Bool.and_eq_true] at h
+    have := leaves_ne_of_noEmptyN n h.1
+    simp [this]
+end
+
+mutual
+theorem lastTokN_of_noEmpty : ∀ n : Node κ, noEmptyN n = true → lastTokN n = n.leaves.getLast?
+  | .tok k t, _ => by simp [lastTokN]
+  | .node k cs, h => by
+    simp only [noEmptyN, Bool.and_eq_true] at h
+    rw [lastTokN_node, leaves_node]
+    exact lastTok_of_noEmpty cs h.2
+/-- **without empty nodes `last_token()` is the last leaf** -/
+theorem lastTok_of_noEmpty : ∀ cs : List (Node κ), noEmptyL cs = true → lastTok cs = (leavesList cs).getLast?
+  | [], _ => by simp [lastTok]
+  | [n], h => by
+    simp only [noEmptyL, Bool.and_eq_true] at h
+    rw [lastTok_single, lastTokN_of_noEmpty n h.1]; simp
+  | c :: d :: cs, h => by
+    simp only [noEmptyL, Bool.and_eq_true] at h
+    have hd : noEmptyL (d :: cs) = true := by simp [noEmptyL, h.2.1, h.2.2]
+    have hne := leavesList_ne_of_noEmptyL (d :: cs) hd (by simp)
+    rw [lastTok_cons_cons, lastTok_of_noEmpty (d :: cs) hd, leavesList_cons (n := c), List.getLast?_append]
+    cases hl : (leavesList (d :: cs)).getLast? with
+    | none => exact absurd (List.getLast?_eq_none_iff.1 hl) hne
+    | some x => rfl
+end
 
 mutual
 /-- the text of a tree is the concatenation of its tokens -/
